@@ -16,15 +16,21 @@ Oracle (searches for a failing input once something differs, and always runs):
 from common import compare, load_corpus
 
 RULE = ("restart: the real FilesystemSecurityContext over process lifetimes (kill / clean stop / reload, "
-        "replays before and after), judged by the oracle (model side: C13's persistence model); "
+        "replays before and after; the `window` setting reduced or enlarged between an orderly stop and the next "
+        "load), judged by the oracle (model side: C13's persistence model); "
         "W: op sequences (is_valid/strike_out) drawn relative to the live window edge "
-        "(inside, below, just above, far above) for sizes 1..64; U: arrival sequences "
-        "(seq, authentic?, echo?) through the real unprotect; M: the same context in both roles - protected "
+        "(inside, below, just above, far above) for sizes 1..64, from start states loaded through "
+        "initialize_from_persisted - also states persisted by a LARGER window (bitfield wider than the size: table "
+        "of all pairs of sizes, random widths); U: arrival sequences "
+        "(seq, authentic?, echo?) through the real unprotect (and the real option decoder), start states as for W, "
+        "numbers around every partial-IV length boundary 2^8, 2^16, 2^24, 2^32 and the last number 2^40-1 "
+        "(table: approach from below, cross, replay, jump from 0); M: the same context in both roles - protected "
         "responses (authentic / forged, with a partial IV of their own that is late / current / future, or none) "
         "between the requests, boundary table enumerated in full. A case is non-trivial when at "
         "least one number is accepted and one refused; distinct by full op sequence.")
 TRUSTED = ["harness shims for cbor2/cryptography/filelock and the transparent AEAD (harness/oscore_util.py)"]
 ASSUMPTIONS = ["AEAD decryption of a forged message fails (modelled as the `authentic` flag)",
+               "the peer is honest about its own numbers: one sender sequence number, one request",
                "window size >= 1 (size 0 trips an assertion in strike_out; not a supported configuration)"]
 
 SIZES = [1, 2, 3, 8, 31, 32, 33, 64]
@@ -43,6 +49,40 @@ def gen_number(rng, index, size, top):
     if k < 9:
         return top + 1 + rng.randrange(2 * size + 2)    # jump
     return rng.randrange(index + 2 * size + 2)
+
+
+PIV_EDGES = [1 << 8, 1 << 16, 1 << 24, 1 << 32, (1 << 40) - 1]
+MAXSEQ = (1 << 40) - 1
+
+
+def recorded(index, bitfield):
+    """numbers >= index that a persisted state {index, bitfield} records as seen - read off the bits, whatever the
+    size of the window that is going to load it (everything below index counts as seen as well)"""
+    return {index + k for k in range(bitfield.bit_length()) if (bitfield >> k) & 1}
+
+
+def oracle_window(size, index, bitfield, ops, toks):
+    """a struck number is invalid; nothing valid after being invalid; nothing the start state records as seen is
+    valid or can be struck"""
+    pre = recorded(index, bitfield)
+    struck = set()
+    for op, t in zip(ops, toks):
+        n = int(op[1:])
+        old = n < index or n in pre
+        if op[0] == "s" and t == "ok":
+            if n in struck:
+                return f"ReplayWindow.strike_out({n}) succeeded twice", "window-double-strike"
+            if old:
+                return (f"strike_out({n}) succeeded although the persisted start state (index {index}, bitfield "
+                        f"{bitfield:#x}, loaded into a window of {size}) records {n} as seen"), "window-start-state-lost"
+            struck.add(n)
+        if op[0] == "v" and t == "1":
+            if n in struck:
+                return f"is_valid({n}) is true after strike_out({n})", "window-valid-after-strike"
+            if old:
+                return (f"is_valid({n}) is true although the persisted start state (index {index}, bitfield "
+                        f"{bitfield:#x}, loaded into a window of {size}) records {n} as seen"), "window-start-state-lost"
+    return "", None
 
 
 def run_window(oscore, size, index, bitfield, ops):
@@ -77,15 +117,35 @@ def window_cases(env, rep):
                        f"v{start}", f"s{start}", f"v{start + delta - size if start + delta >= size else 0}"]
                 cases.append((size, start, 0, ops))
                 cases.append((size, start, 1, ops))
+    # start states persisted by a window of another size: every pair (size that wrote it, size that loads it); the
+    # writer had accepted every second number of its window plus its two topmost ones
+    for wrote in SIZES:
+        for size in SIZES:
+            for start in (0, 1000):
+                bitfield = (sum(1 << k for k in range(0, wrote, 2)) | (1 << (wrote - 1)) | (1 << max(0, wrote - 2)))
+                top = start + wrote - 1
+                probe = sorted({start, start + 1, top, top - 1, top - size, top - size + 1, top - size + 2,
+                                top + 1, start + size - 1, start + size, start + size + 1} - set(range(start)))
+                ops = [f"v{x}" for x in probe if x >= 0] + [f"s{x}" for x in probe if x >= 0] + \
+                      [f"v{x}" for x in probe if x >= 0]
+                cases.append((size, start, bitfield, ops))
     for _ in range(n):
         size = rng.choice(SIZES)
         index = rng.choice([0, 0, 3, 1000, (1 << 32) - 5, (1 << 40) - 70])
-        bitfield = rng.getrandbits(size) if rng.random() < 0.5 else 0
+        r = rng.random()
+        if r < 0.4:
+            bitfield = rng.getrandbits(size)
+        elif r < 0.6:
+            bitfield = rng.getrandbits(size + rng.choice([1, 2, 7, 24, 56]))      # written by a larger window
+        else:
+            bitfield = 0
         ops = []
         # track state with a small reference to steer the generator (not an oracle)
-        idx, top = index, index + size
+        idx, top = index, index + max(size, bitfield.bit_length())
         for _ in range(rng.randrange(4, 40)):
             num = gen_number(rng, idx, size, top)
+            if bitfield >> size and rng.random() < 0.4:
+                num = index + rng.randrange(bitfield.bit_length() + 2)       # where the wide state has its bits
             if rng.random() < 0.5:
                 ops.append(f"v{num}")
             else:
@@ -98,7 +158,7 @@ def window_cases(env, rep):
 
 
 def make_ctx_pair(oscore, HarnessContext, size):
-    client = HarnessContext(b"\x01", b"\x02")
+    client = HarnessContext.Peer(b"\x01", b"\x02")
     server = HarnessContext(b"\x02", b"\x01", window=size)
     return client, server
 
@@ -143,6 +203,8 @@ def run_unprotect(aiocoap, oscore, HarnessContext, size, win, echo_recovery, arr
             o = "R"
         except oscore.ProtectionInvalid:
             o = "P"
+        except Exception as e:                       # e.g. the AssertionError of strike_out
+            o = "X<" + type(e).__name__ + ">"
         after = w.persist() if w.is_initialized() else None
         log.append((seq, auth, echo, o, before, after))
         out.append(o)
@@ -317,53 +379,110 @@ def m_line(size, win, echo_recovery, msgs):
 
 
 def oracle_unprotect(size, win, echo_recovery, log):
-    """Direct reading of the property over what the implementation did."""
+    """Direct reading of the property over what the implementation did.  An initialised start state (index,
+    bitfield) records numbers as seen - below index, or bit set, at whatever position: the state may have been
+    persisted by a larger window - and those count as accepted before."""
     accepted = []
     initialised = win is not None
+    pre_index = win[0] if win else 0
+    pre = recorded(*win) if win else set()
+    pre_top = max(pre) if pre else None
     for (seq, auth, echo, o, before, after) in log:
         if o == "A":
             if seq in accepted:
                 return f"sequence number {seq} accepted twice"
+            if win is not None and (seq < pre_index or seq in pre):
+                return (f"sequence number {seq} accepted although the start state (index {pre_index}, bitfield "
+                        f"{win[1]:#x}, window size {size}) records it as seen: accepted twice")
             if not auth:
                 return f"forged message with sequence number {seq} accepted"
             if not initialised and (echo_recovery is None or echo != echo_recovery):
                 return f"request {seq} accepted on an uninitialised window without the issued echo"
-            if any(seq + size <= a for a in accepted):
+            if any(seq + size <= a for a in accepted) or (pre_top is not None and seq + size <= pre_top):
                 return f"number {seq} accepted although it fell out of the window"
             accepted.append(seq)
             initialised = True
         else:
             if not auth and before != after:
                 return f"forged message {seq} changed the replay window {before} -> {after}"
-            if auth and initialised and win == (0, 0) and all(a < seq for a in accepted):
+            if o.startswith("X"):
+                return f"unprotect of request {seq} raised {o[2:-1]} instead of a protection error"
+            if auth and initialised and all(a < seq for a in accepted) and seq >= pre_index and \
+                    (pre_top is None or seq > pre_top):
                 return f"authentic number {seq} above everything seen was refused ({o})"
             if auth and o == "P":
                 return f"authentic message {seq} failed decryption"
+            if before != after:
+                return f"refused message {seq} changed the replay window {before} -> {after}"
     return ""
+
+
+def unprotect_boundary_cases():
+    """partial-IV length boundaries through the real option decoder, and start states persisted by a larger window"""
+    cases = []
+    for size in (1, 8, 32):
+        for edge in PIV_EDGES:
+            lo = edge - 3
+            near = [x for x in (edge - 2, edge - 1, edge, edge + 1, edge - 1, edge, edge + size, edge + size + 1,
+                                edge - 2) if x <= MAXSEQ]
+            # approaching the boundary from a window just below it
+            cases.append((size, (lo, 1), None, [(x, True, None) for x in near]))
+            # a jump from a fresh window right to / across the boundary, with a forged copy first
+            cases.append((size, (0, 0), 7, [(edge, False, None), (edge, True, None), (edge, True, None),
+                                            (min(edge + 1, MAXSEQ), True, None), (edge - 1, True, None),
+                                            (3, True, None)]))
+            # recovery of an uninitialised window at the boundary
+            cases.append((size, None, 7, [(edge, True, None), (edge, True, 7), (edge, True, 7),
+                                          (edge - 1, True, None), (min(edge + 2, MAXSEQ), True, None)]))
+    # start states written by a window of 32 or 64 (numbers 0..20 accepted; every second of 64; holes) loaded
+    # into a smaller (and a larger) one: replays of everything recorded, then fresh numbers
+    for size in (1, 2, 8, 31, 32, 33, 64):
+        for (index, bitfield) in ((0, (1 << 21) - 1), (5, (1 << 21) - 1), (0, sum(1 << k for k in range(0, 64, 2))),
+                                  (100, (1 << 31) | (1 << 12) | 1), ((1 << 32) - 10, (1 << 20) | (1 << 9) | 0b101)):
+            top = index + bitfield.bit_length() - 1
+            probe = sorted(recorded(index, bitfield))
+            probe = probe[:3] + probe[len(probe) // 2: len(probe) // 2 + 2] + probe[-4:]
+            arr = [(x, True, None) for x in probe] + [(top + 1, True, None), (top + 1, True, None),
+                                                     (top - 1, True, None), (top + size + 3, True, None)]
+            cases.append((size, (index, bitfield), None, arr))
+            cases.append((size, (index, bitfield), 7, [(probe[-1], False, None)] + arr))
+    return cases
 
 
 def unprotect_cases(env):
     rng = env.rng
     n = env.scale(250, 6000)
-    cases = []
+    cases = unprotect_boundary_cases()
     for _ in range(n):
         size = rng.choice([1, 2, 8, 32, 32, 64])
         r = rng.random()
-        if r < 0.5:
+        if r < 0.45:
             win = (0, 0)
-        elif r < 0.75:
+        elif r < 0.7:
             win = None
-        else:
+        elif r < 0.8:
             win = (rng.randrange(100), rng.getrandbits(size))
+        elif r < 0.9:
+            # persisted by a larger window
+            win = (rng.choice([0, 7, 1000]), rng.getrandbits(size + rng.choice([1, 3, 8, 30])))
+        else:
+            e = rng.choice(PIV_EDGES)
+            win = (max(0, e - rng.randrange(1, 2 * size + 3)), rng.getrandbits(size))
         echo_recovery = rng.choice([None, 7, 7, 7]) if win is not None else rng.choice([None, 7, 7, 7, 7])
         arrivals = []
         idx = win[0] if win else 0
-        top = idx
+        top = idx + (win[1].bit_length() if win else 0)
+        wide = sorted(recorded(*win)) if win and win[1] >> size else []
         for _ in range(rng.randrange(2, 14)):
             if arrivals and rng.random() < 0.3:
                 seq = rng.choice(arrivals)[0]          # replay
+            elif wide and rng.random() < 0.4:
+                seq = rng.choice(wide)                 # replay of a number the wide start state records
+            elif rng.random() < 0.04:
+                seq = rng.choice(PIV_EDGES) - rng.randrange(0, 2)     # a jump to a partial-IV length boundary
             else:
                 seq = gen_number(rng, idx, size, top)
+            seq = min(seq, MAXSEQ)
             auth = rng.random() < 0.75
             e = rng.random()
             echo = 7 if e < 0.25 else (8 if e < 0.35 else None)
@@ -406,22 +525,15 @@ def run(env, rep):
         rep.count("W:size=%d" % size)
         for t in toks:
             rep.count("W:result=" + t)
-        # oracle on the window: a struck number is invalid; nothing valid after being invalid
-        struck = set()
-        for op, t in zip(ops, toks):
-            n = int(op[1:])
-            if op[0] == "s" and t == "ok":
-                if n in struck:
-                    rep.oracle_fail({"kind": "W", "size": size, "index": index,
-                                     "bitfield": bitfield, "ops": ops},
-                                    f"ReplayWindow.strike_out({n}) succeeded twice",
-                                    key="window-double-strike")
-                struck.add(n)
-            if op[0] == "v" and t == "1" and n in struck:
-                rep.oracle_fail({"kind": "W", "size": size, "index": index,
-                                 "bitfield": bitfield, "ops": ops},
-                                f"is_valid({n}) is true after strike_out({n})",
-                                key="window-valid-after-strike")
+        if not r.startswith("exception:"):
+            v, key = oracle_window(size, index, bitfield, ops, toks)
+        else:
+            v, key = (f"ReplayWindow raised {r[10:]} (start state index {index}, bitfield {bitfield:#x}, size {size})",
+                      "window-raises:" + r[10:])
+        if v:
+            rep.oracle_fail({"kind": "W", "size": size, "index": index, "bitfield": bitfield, "ops": ops}, v, key=key)
+        if bitfield >> size:
+            rep.count("W:start=persisted-by-larger-window")
     compare(env, rep, cases, lines, impl, what="ReplayWindow")
 
     # --- U: unprotect control flow
@@ -436,9 +548,12 @@ def run(env, rep):
         outs = r.split(" |")[0]
         case = {"kind": "U", "size": size, "win": win, "echo_recovery": er, "arrivals": arrivals}
         rep.case(case, nontrivial=("A" in outs and len(set(outs)) > 1), sample_every=1000)
-        for ch in outs:
+        for ch in [x[3] for x in log]:
             rep.count("U:outcome=" + ch)
-        rep.count("U:start=" + ("uninitialised" if win is None else "initialised"))
+        rep.count("U:start=" + ("uninitialised" if win is None else
+                                "persisted-by-larger-window" if win[1] >> size else "initialised"))
+        for (seq, _a, _e) in arrivals:
+            rep.count("U:pivlen=%d" % max(1, (seq.bit_length() + 7) // 8))
         v = oracle_unprotect(size, win, er, log)
         if v:
             rep.oracle_fail(case, v, key="unprotect:" + v.split(" ")[0] + ":" + v.split(" ")[-1])
@@ -483,6 +598,15 @@ def restart_cases(env):
     ]
     for ev in fixed:
         cases.append({"events": ev})
+    # the `window` setting changed between an orderly stop and the next load: numbers 0..20 (or every third one)
+    # accepted under the old size, then replays of all of them and a few fresh numbers under the new size
+    for (old, new) in ((32, 8), (32, 1), (64, 32), (32, 31), (8, 32), (None, 8), (33, 2)):
+        for step in (1, 3):
+            first = [f"R{n}:1:-" for n in range(0, 21, step)]
+            again = [f"R{n}:1:-" for n in (20, 15, 18, 9, 8, 7, 3, 0, 12)]
+            cases.append({"events": ["L7"] + first + ["S", f"W{new}", "L8"] + again +
+                          ["R21:1:-", "R21:1:-", "R19:1:-", "R60:1:-", "R15:1:-", "S", "L9"] + again[:4],
+                          "window": old})
     for _ in range(env.scale(60, 1500)):
         # an honest peer never uses a sequence number for two different requests: a replay is
         # the identical datagram (same inner Echo option); new requests take new numbers
@@ -503,6 +627,8 @@ def restart_cases(env):
                 if rng.random() < 0.15:
                     ev.append("P")
             ev.append(rng.choice(["K", "K", "S"]))
+            if ev[-1] == "S" and rng.random() < 0.4:
+                ev.append("W%d" % rng.choice([1, 2, 4, 8, 32, 64]))       # the operator changes the window size
             echo += 1
             ev.append(f"L{echo}")
         for _ in range(rng.randrange(1, 5)):
@@ -525,6 +651,9 @@ def oracle_restart(log):
             accepted_in_prev = False
         if o.get("stop"):
             last_stop = o["stop"]
+        if o["ev"] == "R" and o.get("res") == "X":
+            return (f"unprotect of request {o['seq']} in lifetime {o['lifetime']} raised {o.get('exc')} instead of "
+                    f"a protection error")
         if o["ev"] == "R" and str(o.get("res", "")).startswith("A"):
             seq = o["seq"]
             if seq in accepted:
@@ -546,37 +675,31 @@ def run_restarts(env, rep):
     for case in [c["restart"] for _, c in load_corpus("C12") if "restart" in c] + restart_cases(env):
         tokens, log = runner.run(case)
         outs = "".join(str(o.get("res", ""))[:1] for o in log if o["ev"] == "R")
-        rep.case({"kind": "restart", "events": case["events"]},
-                 nontrivial=("A" in outs and len(set(outs)) > 1), sample_every=500)
+        pub = {"kind": "restart", "events": case["events"], "window": case.get("window")}
+        rep.case(pub, nontrivial=("A" in outs and len(set(outs)) > 1), sample_every=500)
         rep.count("restart:stops=" + str(sum(1 for o in log if o.get("stop"))))
+        rep.count("restart:window-changes=" + str(sum(1 for o in log if o["ev"] == "W")))
         v = oracle_restart(log)
         if v:
-            rep.oracle_fail({"kind": "restart", "events": case["events"]}, v,
-                            key="restart:" + v.split(" ")[0] + ":" + v.split(" ")[-2])
+            rep.oracle_fail(pub, v, key="restart:" + v.split(" ")[0] + ":" + v.split(" ")[-2])
 
 
 def replay(env, case):
     if case.get("kind") == "restart":
         from props import C13 as c13
-        tokens, log = c13.Runner(env).run({"events": case["events"]})
+        tokens, log = c13.Runner(env).run({"events": case["events"], "window": case.get("window")})
         return oracle_restart(log)
     aiocoap = env.import_repo(shims=True)
     import aiocoap.oscore as oscore
     import oscore_util
     _, HarnessContext = oscore_util.make(oscore)
     if case.get("kind") == "W":
-        r = run_window(oscore, case["size"], case["index"], case["bitfield"], case["ops"])
+        try:
+            r = run_window(oscore, case["size"], case["index"], case["bitfield"], case["ops"])
+        except Exception as e:
+            return f"ReplayWindow raised {type(e).__name__}"
         toks = r.split(" |")[0].split()
-        struck = set()
-        for op, t in zip(case["ops"], toks):
-            n = int(op[1:])
-            if op[0] == "s" and t == "ok":
-                if n in struck:
-                    return f"strike_out({n}) succeeded twice: {r}"
-                struck.add(n)
-            if op[0] == "v" and t == "1" and n in struck:
-                return f"is_valid({n}) true after strike: {r}"
-        return ""
+        return oracle_window(case["size"], case["index"], case["bitfield"], case["ops"], toks)[0]
     win = tuple(case["win"]) if case["win"] is not None else None
     if case.get("kind") == "M":
         r, log = run_mixed(aiocoap, oscore, HarnessContext, case["size"], win, case["echo_recovery"],
